@@ -274,8 +274,9 @@ theorem xinv_slot {P : Input} {w0 : World} {c0 : Int} {okd : List Nat} {x : XSt}
 section steps
 variable {P : Input} {w0 : World} {F : Option Int} {c0 : Int} (S : Setup P w0 F c0)
   {cfg : Engine.Cfg} {s : Engine.St} (h : Engine.Reach (engineGraph P) cfg s)
-  {x : XSt} (I : XInv P w0 c0 s.okd x)
-include S h I
+  {D : List Nat} (hD1 : ∀ n, n ∈ s.okd → n ∈ D) (hD2 : ∀ n, n ∈ D → n ∈ s.begun)
+  {x : XSt} (I : XInv P w0 c0 D x)
+include S h hD1 hD2 I
 
 theorem begun_built {a : PN} (hb : code a ∈ s.begun) : a ∈ (physFinal P).nodes ∧ a ∈ (physBuild P).nodes := by
   obtain ⟨b, hb', hbn⟩ := engine_node (Engine.begun_in_nodes (engine_wf P) h _ hb)
@@ -283,18 +284,18 @@ theorem begun_built {a : PN} (hb : code a ∈ s.begun) : a ∈ (physFinal P).nod
   exact ⟨engine_sub_final hbn, final_sub_built (engine_sub_final hbn)⟩
 
 theorem write_not_okd_of_not {i : Nat} (hns : ¬ (P.regOf i = some false ∧ P.isStale i = true)) :
-    code (.write i) ∉ s.okd :=
-  fun hm => hns (write_node_reg S.wf (okd_node h hm))
+    code (.write i) ∉ D :=
+  fun hm => hns (write_node_reg S.wf (begun_built S h hD1 hD2 I (hD2 _ hm)).2)
 
 /-- What `read u` finds in the store is the from-scratch value of `u`. -/
 theorem read_value {u : Nat} (hb : code (.read u) ∈ s.begun) :
     (x.w.content u).getD (.missing u) = FS P.toLPlan w0 u := by
   have hL := toLPlan_wf S.wf
-  obtain ⟨sr, hreg⟩ := read_node_reg S.wf (begun_built S h I hb).2
+  obtain ⟨sr, hreg⟩ := read_node_reg S.wf (begun_built S h hD1 hD2 I hb).2
   have hregL : P.toLPlan.reg u = some sr := hreg
   cases sr with
   | true =>
-    have hu := I.untouched u (write_not_okd_of_not S h I (by rw [hreg]; simp))
+    have hu := I.untouched u (write_not_okd_of_not S h hD1 hD2 I (by rw [hreg]; simp))
     rw [FS_eq hL, hregL]
     simp only [World.content, hu]
   | false =>
@@ -303,9 +304,9 @@ theorem read_value {u : Nat} (hb : code (.read u) ∈ s.begun) :
       have hW : P.W u = .write u := by simp [Input.W, hreg]
       rw [hW] at hadj
       have := path_order S.wf h (Path.single hadj) rfl hb
-      obtain ⟨t, ht, _⟩ := I.written u this
+      obtain ⟨t, ht, _⟩ := I.written u (hD1 _ this)
       simp [World.content, ht]
-    · have hu := I.untouched u (write_not_okd_of_not S h I (fun hh => hst hh.2))
+    · have hu := I.untouched u (write_not_okd_of_not S h hD1 hD2 I (fun hh => hst hh.2))
       have hns : isStale P.toLPlan w0 F u = false := by
         rw [← S.stale]; simpa using hst
       obtain ⟨t, ht⟩ := fresh_content hL S.good hregL hns
@@ -321,7 +322,7 @@ theorem lit_args_nil {u : Nat} (hl : P.lits.contains u = true) : P.toLPlan.args 
 
 theorem FS_lit {u : Nat} (hl : P.lits.contains u = true) (hr : P.regOf u ≠ some true) :
     FS P.toLPlan w0 u = .app u [] := by
-  rw [FS_eq (toLPlan_wf S.wf), lit_args_nil S h I hl]
+  rw [FS_eq (toLPlan_wf S.wf), lit_args_nil S h hD1 hD2 I hl]
   have hr' : P.toLPlan.reg u ≠ some true := hr
   split
   · next h1 => exact absurd h1 hr'
@@ -338,29 +339,29 @@ theorem arg_value {u j : Nat} (hu : u ∈ P.toLPlan.args j)
     have hedge : (⟨.read u, .orig j, e.key⟩ : Edge PN) ∈ (physBuild P).edges :=
       mem_built_edges.mpr (Or.inl ⟨e, he, by simp [Input.rewire, hs, hr, hk, hd]⟩)
     have := hpath (.read u) rfl ⟨_, hedge⟩
-    simp only [argNode, hr, Option.isSome_some, if_true, XSt.get, I.readOk u this, Option.getD_some]
+    simp only [argNode, hr, Option.isSome_some, if_true, XSt.get, I.readOk u (hD1 _ this), Option.getD_some]
   | none =>
     simp only [argNode, hr, Option.isSome_none, Bool.false_eq_true, if_false, XSt.get]
     by_cases hl : P.lits.contains u = true
     · simp only [hl, if_true]
-      exact (FS_lit S h I hl (by rw [hr]; simp)).symm
+      exact (FS_lit S h hD1 hD2 I hl (by rw [hr]; simp)).symm
     · have hl' : P.lits.contains u = false := by simpa using hl
       have hedge : (⟨.orig u, .orig j, e.key⟩ : Edge PN) ∈ (physBuild P).edges :=
         mem_built_edges.mpr (Or.inl ⟨e, he, by simp [Input.rewire, hs, hr, hd]⟩)
       have := hpath (.orig u) (by simpa [PN.isLit] using hl') ⟨_, hedge⟩
-      simp only [hl', Bool.false_eq_true, if_false, I.origOk u this hl' (by rw [hr]; simp), Option.getD_some]
+      simp only [hl', Bool.false_eq_true, if_false, I.origOk u (hD1 _ this) hl' (by rw [hr]; simp), Option.getD_some]
 
 /-- What a user call computes is its from-scratch value. -/
 theorem orig_value {j : Nat} (hb : code (.orig j) ∈ s.begun) (hs : P.regOf j ≠ some true) :
     V.app j ((argSrcs (physFinal P) (.orig j)).map (x.get P)) = FS P.toLPlan w0 j := by
   have hL := toLPlan_wf S.wf
-  rw [argSrcs_final S.wf (begun_built S h I hb).1, argSrcs_built, FS_eq hL]
+  rw [argSrcs_final S.wf (begun_built S h hD1 hD2 I hb).1, argSrcs_built, FS_eq hL]
   have hs' : P.toLPlan.reg j ≠ some true := hs
   have hm : ((P.toLPlan.args j).map (argNode P)).map (x.get P) = (P.toLPlan.args j).map (FS P.toLPlan w0) := by
     rw [List.map_map]
     apply List.map_congr_left
     intro u hu
-    exact arg_value S h I hu
+    exact arg_value S h hD1 hD2 I hu
       (fun a ha ⟨k, hk⟩ => path_order S.wf h (Path.single ⟨_, hk, rfl, rfl⟩) ha hb)
   rw [hm]
   split
@@ -373,7 +374,7 @@ def linOf (okd : List Nat) (w : World) : List (Nat × Int) :=
     | .write i => (w.mtime i).map (fun t => (i, t))
     | _ => none)
 
-omit S h I in
+omit S h hD1 hD2 I in
 theorem mem_linOf {okd : List Nat} {w : World} {i : Nat} {t : Int} :
     (i, t) ∈ linOf okd w ↔ code (.write i) ∈ okd ∧ w.mtime i = some t := by
   simp only [linOf, List.mem_filterMap]
@@ -413,22 +414,22 @@ theorem rawNow_value {i : Nat} (hb : code (.write i) ∈ s.begun) (hri : P.regOf
   have hL := toLPlan_wf S.wf
   have hsrc : ∀ k, P.toLPlan.reg k = some true → x.w.content k = w0.content k := by
     intro k hk
-    have := I.untouched k (write_not_okd_of_not S h I (by
+    have := I.untouched k (write_not_okd_of_not S h hD1 hD2 I (by
       have hk' : P.regOf k = some true := hk
       rw [hk']; simp))
     simp [World.content, this]
   have hFS := FS_congr hL hsrc
   have hfresh : ∀ u, u ∈ P.toLPlan.preds i → isStale P.toLPlan x.w F u = false := by
     intro u hu
-    apply run_prefix_fresh hL (w0 := w0) (wf := x.w) (F := F) (lin := linOf s.okd x.w)
+    apply run_prefix_fresh hL (w0 := w0) (wf := x.w) (F := F) (lin := linOf D x.w)
     · intro j hj
-      by_cases hm : code (.write j) ∈ s.okd
+      by_cases hm : code (.write j) ∈ D
       · obtain ⟨t, ht, _⟩ := I.written j hm
         exact absurd (mem_linOf.mpr ⟨hm, by simp [World.mtime, ht]⟩) (hj t)
       · exact I.untouched j hm
     · intro j t hm; exact (mem_linOf.mp hm).2
     · intro j t hm
-      obtain ⟨h1, h2⟩ := write_node_reg S.wf (okd_node h (mem_linOf.mp hm).1)
+      obtain ⟨h1, h2⟩ := write_node_reg S.wf (begun_built S h hD1 hD2 I (hD2 _ (mem_linOf.mp hm).1)).2
       exact ⟨⟨false, h1⟩, by rw [← S.stale]; exact h2⟩
     · intro j t hm
       obtain ⟨hm1, hm2⟩ := mem_linOf.mp hm
@@ -446,7 +447,7 @@ theorem rawNow_value {i : Nat} (hb : code (.write i) ∈ s.begun) (hri : P.regOf
         have := Cache.Reach.le hL hr
         have := hL.predsLt i u hu
         omega
-      have hm := upstream_written S h I hb hri hri' (by omega) hreg (by rw [S.stale]; exact hst)
+      have hm := hD1 _ (upstream_written S h hD1 hD2 I hb hri hri' (by omega) hreg (by rw [S.stale]; exact hst))
       obtain ⟨t, ht, _⟩ := I.written q hm
       exact ⟨t, mem_linOf.mpr ⟨hm, by simp [World.mtime, ht]⟩⟩
   unfold rawNow
@@ -468,22 +469,22 @@ theorem write_arg_value {i : Nat} (hb : code (.write i) ∈ s.begun) (hri : P.re
   simp only [XSt.get]
   by_cases hl : P.lits.contains i = true
   · simp only [hl, if_true]
-    exact (FS_lit S h I hl (by rw [hri]; simp)).symm
+    exact (FS_lit S h hD1 hD2 I hl (by rw [hri]; simp)).symm
   · have hl' : P.lits.contains i = false := by simpa using hl
     have hedge : (⟨.orig i, .write i, .pos 1⟩ : Edge PN) ∈ (physBuild P).edges :=
       mem_built_edges.mpr (Or.inr ⟨(i, false), mem_of_regOf hri, by simp [Input.gadgetEdges, hst]⟩)
     have := path_order S.wf h (Path.single ⟨_, hedge, rfl, rfl⟩) (by simpa [PN.isLit] using hl') hb
-    simp only [hl', Bool.false_eq_true, if_false, I.origOk i this hl' (by rw [hri]; simp), Option.getD_some]
+    simp only [hl', Bool.false_eq_true, if_false, I.origOk i (hD1 _ this) hl' (by rw [hri]; simp), Option.getD_some]
 
 /-- Completing the write of stored value `i`. -/
 theorem xinv_write {i : Nat} (hb : code (.write i) ∈ s.begun) (hn : code (.write i) ∉ s.okd) :
-    XInv P w0 c0 (s.okd ++ [code (.write i)])
+    XInv P w0 c0 (D ++ [code (.write i)])
       { x with w := x.w.set i (some (x.get P (.orig i), x.clock)), clock := x.clock + 1 } := by
   have hL := toLPlan_wf S.wf
-  obtain ⟨hri, hst⟩ := write_node_reg S.wf (begun_built S h I hb).2
-  have hv := write_arg_value S h I hb hri hst
-  have hraw := rawNow_value S h I hb hri
-  have hmem : ∀ b : PN, (∀ j, b ≠ .write j) → code b ∈ s.okd ++ [code (.write i)] → code b ∈ s.okd := by
+  obtain ⟨hri, hst⟩ := write_node_reg S.wf (begun_built S h hD1 hD2 I hb).2
+  have hv := write_arg_value S h hD1 hD2 I hb hri hst
+  have hraw := rawNow_value S h hD1 hD2 I hb hri
+  have hmem : ∀ b : PN, (∀ j, b ≠ .write j) → code b ∈ D ++ [code (.write i)] → code b ∈ D := by
     intro b hb' hm
     rcases mem_snoc_code.mp hm with h1 | h1
     · exact h1
@@ -530,12 +531,11 @@ theorem xinv_write {i : Nat} (hb : code (.write i) ∈ s.begun) (hn : code (.wri
     · by_cases hqi : q = i
       · subst hqi
         exfalso
-        have hk' : code (PN.write k) ∈ s.okd := by
+        have hk' : code (PN.write k) ∈ D := by
           rcases mem_snoc_code.mp hk with h1 | h1
           · exact h1
           · simp only [PN.write.injEq] at h1; exact absurd h1 hki
-        obtain ⟨hrk, _⟩ := write_node_reg S.wf (okd_node h hk')
-        have hi := Engine.inv_reach (engine_wf P) h
+        obtain ⟨hrk, _⟩ := write_node_reg S.wf (begun_built S h hD1 hD2 I (hD2 _ hk')).2
         have hall : ∀ y, Cache.Reach P.toLPlan q y → ∀ s', P.regOf y = some s' → P.isStale y = true := by
           intro y hy _ _
           rw [S.stale] at hst ⊢
@@ -544,20 +544,24 @@ theorem xinv_write {i : Nat} (hb : code (.write i) ∈ s.begun) (hn : code (.wri
         have hWq : P.W q = .write q := by simp [Input.W, hri]
         have hWk : P.W k = .write k := by simp [Input.W, hrk]
         rw [hWq, hWk] at hp
-        exact hn (path_order S.wf h hp rfl (hi.okBegun _ hk'))
+        exact hn (path_order S.wf h hp rfl (hD2 _ hk'))
       · rw [hmt_other q hqi] at hmq
         rw [hmt_other k hki] at hmk
-        have hq' : code (PN.write q) ∈ s.okd := by
+        have hq' : code (PN.write q) ∈ D := by
           rcases mem_snoc_code.mp hq with h1 | h1
           · exact h1
           · simp only [PN.write.injEq] at h1; exact absurd h1 hqi
-        have hk' : code (PN.write k) ∈ s.okd := by
+        have hk' : code (PN.write k) ∈ D := by
           rcases mem_snoc_code.mp hk with h1 | h1
           · exact h1
           · simp only [PN.write.injEq] at h1; exact absurd h1 hki
         exact I.order q k tq tk hne hq' hk' hmq hmk hr
 
 end steps
+
+theorem okd_begun {P : Input} {cfg : Engine.Cfg} {s : Engine.St} (h : Engine.Reach (engineGraph P) cfg s) :
+    ∀ n, n ∈ s.okd → n ∈ s.begun :=
+  fun n hn => (Engine.inv_reach (engine_wf P) h).okBegun n hn
 
 /-! ### every reachable state of every schedule -/
 
@@ -591,15 +595,15 @@ theorem xinv_reach {P : Input} {w0 : World} {F : Option Int} {c0 : Int} (S : Set
           apply xinv_slot ih (by simp) (by simp)
           intro j' hj _ hs'
           cases hj
-          exact orig_value S hr ih hbeg hs'
+          exact orig_value S hr (fun _ hh => hh) (fun n hn => hi.okBegun n hn) ih hbeg hs'
       | read u =>
         simp only [execNode]
         apply xinv_slot ih (by simp)
-        · intro u' hu; cases hu; exact read_value S hr ih hbeg
+        · intro u' hu; cases hu; exact read_value S hr (fun _ hh => hh) (fun n hn => hi.okBegun n hn) ih hbeg
         · intro j hj; cases hj
       | write i =>
         simp only [execNode]
-        exact xinv_write S hr ih hbeg hnok
+        exact xinv_write S hr (fun _ hh => hh) (fun n hn => hi.okBegun n hn) ih hbeg hnok
       | storeLit i =>
         simp only [execNode]
         exact xinv_noop ih (by simp) (by simp) (fun j hj => by cases hj)
